@@ -120,7 +120,8 @@ def gen_case_refs(seed, i):
     nruns = r.randint(1, 3)
     files = [gen_recs(r) for _ in range(nruns)]
     two = r.random() < 0.5
-    return {"files": files, "two_members": two, "hdr": r.choice(["b", "n", "a"]), "probe": gen_recs(r)[:3]}
+    return {"files": files, "two_members": two, "hdr": r.choice(["b", "n", "a"]), "probe": gen_recs(r)[:3],
+            "empty_member": two and r.random() < 0.5}
 
 
 def case_refs(case):
@@ -146,6 +147,9 @@ def case_refs(case):
     g = ['~ id: A ~ $[1*][@zero = subtract(#n, #n) @flag = no() @blank = "" #b == "x" @v = count_lines() @t.k = #a @t.j = #n]']
     if case["two_members"]:
         g.append('~ id: B ~ $[1*][@w = count() yes()]')
+        if case.get("empty_member"):
+            # a further member that collects nothing: references to the others must not notice
+            g.append('~ id: C ~ $[1*][no()]')
     cp.paths_manager.add_named_paths(name="g", paths=g)
     last = None
     for k, recs in enumerate(case["files"]):
